@@ -252,6 +252,20 @@ pub mod fs {
             }
         }
     }
+    /// std::fs::write = create (truncate) + write_all, no fsync; two crash points.
+    pub fn write<P: AsRef<PathBuf>, C: AsRef<[u8]>>(p: P, contents: C) -> io::Result<()> {
+        use super::io::Write;
+        let mut f = File::create(p)?;
+        f.write_all(contents.as_ref())
+    }
+    /// std::fs::copy: the destination gets a NEW unsynced inode with the source's content.
+    pub fn copy<P: AsRef<PathBuf>, Q: AsRef<PathBuf>>(a: P, b: Q) -> io::Result<u64> {
+        use super::io::Write;
+        let data = read(a)?;
+        let mut f = File::create(b)?;
+        f.write_all(&data)?;
+        Ok(data.len() as u64)
+    }
     impl File {
         pub fn create<P: AsRef<PathBuf>>(p: P) -> io::Result<File> {
             step()?;
